@@ -11,11 +11,11 @@ CHECKS="$*"
 S=/tmp/wt/matrix-$ID-$$
 rm -rf "$S"; git -C /repo worktree prune
 git -C /repo worktree add -q --detach "$S" HEAD || exit 2
-(cd "$S" && { git apply "$V/seeded/$ID/patch.diff" 2>/dev/null || { git apply --3way "$V/seeded/$ID/patch.diff" >/dev/null 2>&1 && git reset -q && ! grep -rl '^<<<<<<< ' --include='*.go' . >/dev/null; }; }) || { echo "patch does not apply" | tee "$V/seeded/$ID/detect.txt"; git -C /repo worktree remove --force "$S"; exit 2; }
+(cd "$S" && { git apply "$V/${SEEDROOT:-seeded}/$ID/patch.diff" 2>/dev/null || { git apply --3way "$V/${SEEDROOT:-seeded}/$ID/patch.diff" >/dev/null 2>&1 && git reset -q && ! grep -rl '^<<<<<<< ' --include='*.go' . >/dev/null; }; }) || { echo "patch does not apply" | tee "$V/${SEEDROOT:-seeded}/$ID/detect.txt"; git -C /repo worktree remove --force "$S"; exit 2; }
 W=/tmp/wt/matrix-$ID-$$.verif
 rm -rf "$W"; mkdir -p "$W/evidence"
 cp "$V/known_findings.json" "$W/"
-OUT="$V/seeded/$ID/detect.txt"
+OUT="$V/${SEEDROOT:-seeded}/$ID/detect.txt"
 : > "$OUT"
 for c in $CHECKS; do
   VERIF_REPO="$S" VERIF_DIR_OVERRIDE="$W" "$V/run.sh" "$c" quick > "$W/$c.log" 2>&1
